@@ -315,9 +315,11 @@ impl RoocFunction for ArrayDifference {
         context: &TypeCheckerContext,
         fn_context: &FunctionContext,
     ) -> Vec<(String, PrimitiveKind)> {
+        // both operands take the kind of the first one, which must be iterable
         let first = args
             .first()
             .map(|a| a.get_type(context, fn_context))
+            .filter(|kind| kind.is_iterable())
             .unwrap_or(PrimitiveKind::Iterable(Box::new(PrimitiveKind::Any)));
         vec![
             ("from".to_string(), first.clone()),
@@ -371,9 +373,11 @@ impl RoocFunction for ArrayUnion {
         context: &TypeCheckerContext,
         fn_context: &FunctionContext,
     ) -> Vec<(String, PrimitiveKind)> {
+        // both operands take the kind of the first one, which must be iterable
         let first = args
             .first()
             .map(|a| a.get_type(context, fn_context))
+            .filter(|kind| kind.is_iterable())
             .unwrap_or(PrimitiveKind::Iterable(Box::new(PrimitiveKind::Any)));
         vec![
             ("first".to_string(), first.clone()),
@@ -426,9 +430,11 @@ impl RoocFunction for ArrayIntersection {
         context: &TypeCheckerContext,
         fn_context: &FunctionContext,
     ) -> Vec<(String, PrimitiveKind)> {
+        // both operands take the kind of the first one, which must be iterable
         let first = args
             .first()
             .map(|a| a.get_type(context, fn_context))
+            .filter(|kind| kind.is_iterable())
             .unwrap_or(PrimitiveKind::Iterable(Box::new(PrimitiveKind::Any)));
         vec![
             ("first".to_string(), first.clone()),
